@@ -7,6 +7,10 @@
 #define VP_MEMCPY_NO_HAVOC 1 /* buf lives inside struct reduce_data: never havoc the whole object */
 #include "models/alloc.h"
 #include "models/libc.h"
+/* ghost record of the stored-hash read (see contracts/reduce.h); declared here so that the loop
+   contract inside reduce_decode_get can name it */
+uint64_t vp_last_str2hash;
+unsigned vp_str2hash_calls;
 #include "mir-reduce.h"
 
 #define REACH(msg) __CPROVER_assert (0, "VP_REACH: " msg)
